@@ -38,6 +38,9 @@ def cases(tier, seed):
         px = gen.random_store(rng, n, "symm", density=rng.choice([0.3, 0.6, 0.9, 1.0]), maxval=6)
         if h % 17 == 0:
             px = []
+        if h % 6 == 2:
+            # explicitly stored zero counts (e.g. a cooler loaded from a dense dump): records, but not non-zeros
+            px = [[i, j, 0 if rng.random() < 0.4 else v] for i, j, v in px]
         nch = 1 + max(t[0] for t in table)
         mode = rng.choice(["genome", "genome", "cis"] + (["trans"] if nch >= 2 else []))
         black = rng.sample(range(n), rng.choice([0, 0, 1, 2]))
@@ -92,6 +95,17 @@ def cases(tier, seed):
                              "witness": False}
 
 
+F19_KEY = "C10:F19:trans-only weights omit the chromosome-size factor used inside the iteration"
+
+
+def keyfn(ev, clauses):
+    """TLC names the clause after the exact wrong value it saw; only that value maps onto the known finding."""
+    if clauses == ["transOnlyRowSumsAreOne:weightsOmitChromosomeFactor"] and ev["case"]["o"]["mode"] == "trans":
+        return F19_KEY
+    import json
+    return f"{ev['drv']}:{','.join(clauses)}:{json.dumps(ev['case'], sort_keys=True)}"
+
+
 def run(tier, seed, only_case=None):
     r = Run("C10", tier, seed, replay=only_case is not None)
     r.rule = ("bl.balance: (1) random symmetric integer matrices on six tables (1-3 chromosomes, fixed and variable) x mode "
@@ -113,5 +127,5 @@ def run(tier, seed, only_case=None):
     for drv, case, obs in run_cases(cs, chunk=8):
         r.record(TRACE, drv, case, obs, len(case["px"]) > 0)
     r.exhaustive = False
-    r.validate(TRACE)
+    r.validate(TRACE, keyfn=keyfn)
     return r.finish()
